@@ -167,6 +167,20 @@ def cmd_silence(a):
     return 1 if bad else 0
 
 
+def cmd_suite(a):
+    """Repository's own suite with every probe installed (pytest plugin vpkg.suiteprobe)."""
+    out = os.path.join(VERIF, ".run", "suiteprobe.json")
+    env = dict(os.environ, PYTHONPATH=os.pathsep.join([VERIF, os.path.join(VERIF, ".deps")]), PYTHONDONTWRITEBYTECODE="1", VP_SUITE_OUT=out)
+    p = subprocess.run([PY, "-m", "pytest", "-q", "-p", "no:cacheprovider", "-p", "vpkg.suiteprobe", "--deselect", TEST_IDS_EXCLUDE[0], "tests"],
+                       cwd="/repo", env=env, capture_output=True, text=True, timeout=3600)
+    print(p.stdout[-2500:])
+    res = json.load(open(out))
+    bad = res["violations"]
+    reached = sum(m["reached"] for m in res["monitors"].values())
+    print("suite under probes: pytest exit=%d, probe adjudications=%d, disagreements=%d" % (p.returncode, reached, len(bad)))
+    return 1 if (bad or p.returncode != 0 or reached == 0) else 0
+
+
 def main():
     ap = argparse.ArgumentParser()
     sub = ap.add_subparsers(dest="cmd")
@@ -183,8 +197,9 @@ def main():
     q.add_argument("--seeds", default="0-2")
     q.add_argument("--tier", default="quick")
     q.add_argument("--props", default=None)
+    sub.add_parser("suite")
     a = ap.parse_args()
-    sys.exit({"mutants": cmd_mutants, "seeded": cmd_seeded, "silence": cmd_silence}[a.cmd](a))
+    sys.exit({"mutants": cmd_mutants, "seeded": cmd_seeded, "silence": cmd_silence, "suite": cmd_suite}[a.cmd](a))
 
 
 if __name__ == "__main__":
